@@ -296,6 +296,78 @@ def many_files(R, rng, tier):
     shutil.rmtree(d, ignore_errors=True)
 
 
+def faulty_sets(R, rng, tier):
+    """Runs in which some or all files are faulty in different ways (several faults in one run, every position, no healthy
+    file at all), rendered by every formatter: the scan completes, a report is produced in each format, every file is in
+    exactly one of scanned/skipped and healthy files keep their findings."""
+    import itertools
+    import shutil
+    d = os.path.join(impl.scratch(), "fsets")
+    FAULTS = {"syntax": b"def f(:\n", "nul": b"x = 1\x00\n", "bytes": b"\xff\xfe\x00garbage\n", "cookie": b"# coding: ascii\ns = '\xe9'\n",
+              "missing": None, "loop": "LOOP"}
+    layouts = []
+    kinds = sorted(FAULTS)
+    for k in kinds:                                   # no healthy file at all
+        layouts.append([k])
+        layouts.append([k, k])
+    for a, b in itertools.product(kinds, kinds):      # two faults around healthy files, every order
+        layouts.append(["ok", a, "ok", b, "ok"])
+        if tier != "quick":
+            layouts.append([a, b, "ok"])
+            layouts.append(["ok", a, b])
+    if tier == "quick":
+        layouts = layouts[:12] + rng.sample(layouts[12:], 14)
+    fmts = ("json", "txt", "screen", "csv", "xml", "html", "yaml", "sarif", "custom")
+    for lay in layouts:
+        shutil.rmtree(d, ignore_errors=True)
+        os.makedirs(d)
+        names = []
+        for i, k in enumerate(lay):
+            p_ = os.path.join(d, "f%02d_%s.py" % (i, k))
+            names.append(p_)
+            if k == "ok":
+                open(p_, "w").write("assert zz_%d\n" % i)
+            elif k == "missing":
+                pass                                  # named on the command line, does not exist
+            elif k == "loop":
+                os.symlink(os.path.basename(p_), p_)  # ELOOP at open()
+            else:
+                open(p_, "wb").write(FAULTS[k])
+        for fmt in (fmts if tier != "quick" else ("json", "txt", rng.choice(fmts[2:]))):
+            out = os.path.join(impl.scratch(), "fsets.out")
+            if os.path.exists(out):
+                os.remove(out)
+            r = climain.run_main(["-f", fmt, "-o", out, "--exit-zero"] + names)   # not -q: a quiet text report of no findings is empty by design
+            R.case(("fset", tuple(lay), fmt), nontrivial=True, sample={"layout": lay, "format": fmt, "exit": r["exit"], "exception": r["exception"]})
+            R.count("faulty-set:%s" % fmt)
+            inp = {"files": [os.path.basename(n) for n in names], "kinds": lay, "options": ["-f", fmt, "-o", "OUT", "--exit-zero"]}
+            produced = ("Run started" in r["stdout"]) if fmt == "screen" else (os.path.exists(out) and os.path.getsize(out) > 0)
+            if r["exception"] or r["exit"] != 0 or not produced:      # the screen formatter always writes to the terminal
+                R.violations.append({"what": "no %s report for a run over files %s (%s)" % (fmt, lay, r["exception"] or "exit %s" % r["exit"]),
+                                     "input": inp, "observed": (r["traceback"] or r["stderr"] or "")[-500:], "signature": None})
+                continue
+            if fmt != "json":
+                continue
+            j = json.load(open(out))
+            scanned = [os.path.basename(x) for x in j["metrics"] if x != "_totals"]
+            skipped = [os.path.basename(e["filename"]) for e in j["errors"]]
+            want_ok = sorted(os.path.basename(n) for n, k in zip(names, lay) if k == "ok")
+            want_bad = sorted(os.path.basename(n) for n, k in zip(names, lay) if k != "ok")
+            # a file that could be opened but not parsed is listed in both (it was read; it has metrics): what matters is
+            # that every healthy file is scanned and not skipped, every faulty file is skipped exactly once
+            if sorted(skipped) != want_bad:
+                R.violations.append({"what": "skipped files are %s, the faulty ones are %s (layout %s)" % (sorted(skipped), want_bad, lay),
+                                     "input": inp, "observed": j["errors"], "signature": None})
+            if sorted(set(scanned) - set(skipped)) != want_ok:
+                R.violations.append({"what": "files scanned and not skipped are %s, the healthy ones are %s (layout %s)"
+                                             % (sorted(set(scanned) - set(skipped)), want_ok, lay), "input": inp, "observed": sorted(j["metrics"]), "signature": None})
+            have = sorted(os.path.basename(x["filename"]) for x in j["results"] if x["test_id"] == "B101")
+            if have != want_ok:
+                R.violations.append({"what": "findings of healthy files are %s, expected one B101 in each of %s (layout %s)" % (have, want_ok, lay),
+                                     "input": inp, "observed": have, "signature": None})
+    shutil.rmtree(d, ignore_errors=True)
+
+
 def check_faults(R, rng, tier):
     """A check that raises while one file is scanned (the tester logs it and goes on) costs that file's findings of that check
     only: files scanned afterwards keep all of theirs."""
@@ -410,10 +482,12 @@ def run(R, replay=None):
               "manager and compared with the Accounting model and with the statement; plus mutated / truncated / random byte files "
               "(encoding and newline pathologies, NULs, deep nesting, long lines, lone surrogates) between two healthy files through "
               "main() with JSON output; directories of 12-120 files (below and above the progress-bar threshold, quiet and default "
-              "verbosity) with one faulty file; non-trivial = every case")
+              "verbosity) with one faulty file; runs with two faults of every pair of kinds in either order or with no healthy file at "
+              "all, rendered by every formatter; non-trivial = every case")
     fault_cases(R, rng, R.tier)
     byte_cases(R, rng, R.tier)
     many_files(R, rng, R.tier)
+    faulty_sets(R, rng, R.tier)
     check_faults(R, rng, R.tier)
     odd_names(R, rng, R.tier)
     odd_names_stdout(R, rng, R.tier)
